@@ -89,3 +89,33 @@ package golang
 //@   loop 1
 //@     invariant [data] data != nil && data >= old(alloc()) && len(data.Rows) == len(itemSets.sets) && arr(data.Rows) >= old(alloc()) && data.NumNTSymbols == len(sym.ntTypeMap)
 //@     invariant [entries] all(n, 0, range_i1, len(data.Rows[n]) == len(sym.ntTypeMap) && all(i, 0, len(sym.ntTypeMap), data.Rows[n][i].State == ite(has(itemSets.sets[n].Transitions, sym.ntTypeMap[i]), itemSets.sets[n].Transitions[sym.ntTypeMap[i]], -1)))
+//@
+//@ package ast
+//@ func ast.(*SyntaxProd).String
+//@   trusted
+//@   assigns nothing
+//@ package symbols
+//@ func symbols.(*Symbols).NTType
+//@   nobody
+//@   # proved in internal/parser/symbols
+//@   ensures [value] result == ite(has(this.ntIdMap, symbol), this.ntIdMap[symbol], -1)
+//@   assigns nothing
+//@ package golang
+//@
+//@ # C03 / C02: the production table handed to the template. For every production, in grammar order: its head's
+//@ # nonterminal number, the number of symbols the reduce step pops (0 for an `empty` body, the body length otherwise)
+//@ # and, when the grammar gives no action, the default action: the first attribute, or nil for an empty body
+//@ spec emptyBody(p *ast.SyntaxProd) bool = SymStr(p.Body.Symbols[0]) == "empty"
+//@ func getProdsTab
+//@   prop C03 C02 C10
+//@   requires [input] symbols != nil && all(p, 0, len(prods), prods[p] != nil && prods[p].Body != nil && len(prods[p].Body.Symbols) > 0 && isSym(prods[p].Body.Symbols[0]))
+//@   ensures [rows] result != nil && len(result.ProdTab) == len(prods)
+//@   ensures [pops] all(p, 0, len(prods), result.ProdTab[p].NumSymbols == ite(emptyBody(prods[p]), 0, len(prods[p].Body.Symbols)))
+//@   ensures [head] all(p, 0, len(prods), result.ProdTab[p].Id == prods[p].Id && result.ProdTab[p].NTType == ite(has(symbols.ntIdMap, prods[p].Id), symbols.ntIdMap[prods[p].Id], -1))
+//@   ensures [default-action] all(p, 0, len(prods), imp(len(prods[p].Body.SDT) == 0, result.ProdTab[p].ReduceFunc == ite(emptyBody(prods[p]), "return nil, nil", "return X[0], nil")))
+//@   assigns nothing
+//@   loop 1
+//@     invariant [data] data != nil && data >= old(alloc()) && len(data.ProdTab) == len(prods) && arr(data.ProdTab) >= old(alloc())
+//@     invariant [pops] all(p, 0, range_i1, data.ProdTab[p].NumSymbols == ite(emptyBody(prods[p]), 0, len(prods[p].Body.Symbols)))
+//@     invariant [head] all(p, 0, range_i1, data.ProdTab[p].Id == prods[p].Id && data.ProdTab[p].NTType == ite(has(symbols.ntIdMap, prods[p].Id), symbols.ntIdMap[prods[p].Id], -1))
+//@     invariant [default-action] all(p, 0, range_i1, imp(len(prods[p].Body.SDT) == 0, data.ProdTab[p].ReduceFunc == ite(emptyBody(prods[p]), "return nil, nil", "return X[0], nil")))
